@@ -289,4 +289,112 @@ def wantTasks (cfg : Nat → List Binding) (hooks : List Nat) (en : Nat → Bool
 
 end Spec
 
+/-! ## loading of the `schedule:` section (`config_v0.go`, `config_v1.go`)
+
+What a hook *declares* (its `--config` output) and what the controller is given (`htypes.ScheduleConfig`).
+"That binding's name / group / allowFailure / snapshot list / queue" in the property is what the hook
+declared: an absent name is `schedule`, an absent queue is `main`, a group adds the names of the
+kubernetes bindings of that group to the snapshot list; the legacy v0 format has name, crontab and
+allowFailure only (queue `main`, no group, no snapshots). -/
+
+/-- One entry of the declared `schedule:` list. `none` = key absent or empty string. -/
+structure Decl where
+  name : Option Nat
+  crontab : Crontab
+  includes : List Nat
+  allowFailure : Bool
+  queue : Option Nat
+  group : Nat
+deriving Repr, DecidableEq
+
+/-- A declared `kubernetes:` binding, as far as schedules are concerned: its name and its group. -/
+structure KubeDecl where
+  name : Nat
+  group : Nat
+deriving Repr, DecidableEq
+
+/-- The interned strings the loader uses: `"schedule"`, `"main"`, `""` (no group). -/
+structure Defaults where
+  schedName : Nat
+  mainQueue : Nat
+  noGroup : Nat
+deriving Repr, DecidableEq
+
+/-- `HookConfigV1.ConvertSchedule`. -/
+def convertV1 (df : Defaults) (id : Id) (d : Decl) : Binding :=
+  { id := id,
+    name := match d.name with | some n => n | none => df.schedName,
+    crontab := d.crontab, includes := d.includes, allowFailure := d.allowFailure,
+    queue := match d.queue with | none => df.mainQueue | some q => q,
+    group := d.group }
+
+/-- `HookConfigV0.ConvertSchedule`: name, crontab, allowFailure; `res.Queue = "main"`. -/
+def convertV0 (df : Defaults) (id : Id) (d : Decl) : Binding :=
+  { id := id,
+    name := match d.name with | some n => n | none => df.schedName,
+    crontab := d.crontab, includes := [], allowFailure := d.allowFailure,
+    queue := df.mainQueue, group := df.noGroup }
+
+/-- `groupSnapshots[g]` of `ConvertAndCheck`: the names of the kubernetes bindings with group `g`, in
+order; bindings without a group are skipped, a group nobody has is not a key (`none`). -/
+def groupSnaps (df : Defaults) (kubes : List KubeDecl) (g : Nat) : Option (List Nat) :=
+  let l := (kubes.filter (fun k => k.group != df.noGroup && k.group == g)).map (·.name)
+  if l.isEmpty then none else some l
+
+/-- Second loop of `MergeArrays`: `union` = the keys whose map value is still `true`. -/
+def mergeTail (union : List Nat) : List Nat → List Nat
+  | [] => []
+  | a :: as => if a ∈ union then a :: mergeTail (union.filter (· != a)) as else mergeTail union as
+
+/-- `MergeArrays(a1, a2)`: `a1`, then the elements of `a2` that are not in `a1`, each once. -/
+def mergeArrays (a1 a2 : List Nat) : List Nat := a1 ++ mergeTail (a2.filter (fun a => !(a1.contains a))) a2
+
+/-- The final pass of `HookConfigV1.ConvertAndCheck` over `c.Schedules`. -/
+def mergeGroup (df : Defaults) (kubes : List KubeDecl) (b : Binding) : Binding :=
+  match groupSnaps df kubes b.group with
+  | some sn => { b with includes := mergeArrays b.includes sn }
+  | none => b
+
+/-- `HookConfigV1.ConvertAndCheck`, schedule part: convert every entry, then merge the group's snapshots. -/
+def loadV1 (df : Defaults) (kubes : List KubeDecl) (ds : List (Id × Decl)) : List Binding :=
+  (ds.map (fun p => convertV1 df p.1 p.2)).map (mergeGroup df kubes)
+
+/-- `HookConfigV0.ConvertAndCheck`, schedule part. -/
+def loadV0 (df : Defaults) (ds : List (Id × Decl)) : List Binding :=
+  ds.map (fun p => convertV0 df p.1 p.2)
+
+def load (df : Defaults) (v0 : Bool) (kubes : List KubeDecl) (ds : List (Id × Decl)) : List Binding :=
+  if v0 then loadV0 df ds else loadV1 df kubes ds
+
+namespace Spec
+
+/-- The names a group contributes to the snapshot list of a binding of that group. -/
+def groupNames (df : Defaults) (kubes : List KubeDecl) (g : Nat) : List Nat :=
+  if g == df.noGroup then [] else (kubes.filter (fun k => k.group == g)).map (·.name)
+
+/-- No element occurs twice. -/
+def nodupB : List Nat → Bool
+  | [] => true
+  | a :: as => !(as.contains a) && nodupB as
+
+/-- "That binding's snapshot list": the declared `includeSnapshotsFrom`, followed — in some order,
+each once — by the names of the kubernetes bindings of the binding's group that are not listed yet. -/
+def snapshotsOk (declared names got : List Nat) : Bool :=
+  got.take declared.length == declared &&
+  (let tail := got.drop declared.length
+   tail.all (fun x => names.contains x && !(declared.contains x)) &&
+   names.all (fun x => declared.contains x || tail.contains x) &&
+   nodupB tail)
+
+/-- **The binding a declaration stands for** (what the property calls "that binding's …"), as a
+predicate on the binding `b` the controller is given. -/
+def declaredAs (df : Defaults) (v0 : Bool) (kubes : List KubeDecl) (id : Id) (d : Decl) (b : Binding) : Bool :=
+  b.id == id && b.crontab == d.crontab && b.allowFailure == d.allowFailure &&
+  b.name == d.name.getD df.schedName &&
+  (if v0 then b.queue == df.mainQueue && b.group == df.noGroup && b.includes.isEmpty
+   else b.queue == d.queue.getD df.mainQueue && b.group == d.group &&
+        snapshotsOk d.includes (groupNames df kubes d.group) b.includes)
+
+end Spec
+
 end ShellOp.Schedule
